@@ -118,7 +118,7 @@ RANDOM_ONLY = {
         dict(kind='wtlfu', **wt(2, 2, 2, 12, 8, [1, 2, 3], random=(20, 150))),
         # larger scopes (sizes 5..12, 12..18 keys, longer histories with workload profiles): what needs a threshold, a
         # longer list or a particular relation between two sizes to show
-        dict(kind='raw', **raw(8, [0, 1, 2, 4, 12], 12, [1, 2, 3], random=(24, 300))),
+        dict(kind='raw', **raw(8, [0, 1, 2, 4, 7, 9, 12], 12, [1, 2, 3], random=(24, 300))),
         dict(kind='slru', **slru(5, 6, 14, [1, 2, 3], random=(24, 300))),
         dict(kind='slru', **slru(7, 3, 14, [1, 2, 3], random=(24, 300))),
         dict(kind='2q', **twoq(8, 2, 4, 14, [1, 2, 3], random=(24, 300))),
@@ -129,7 +129,7 @@ RANDOM_ONLY = {
         dict(kind='wtlfu', **wt(4, 3, 8, 30, 18, [1, 2, 3], random=(16, 400))),
         # big scopes (sizes 16..100, long histories): thresholds, batch sizes, "optimisations for large caches", size
         # relations such as one segment at least four times the other, the default 1/19/80 W-TinyLFU split
-        dict(kind='raw', **raw(40, [0, 1, 2, 5, 10, 64], 64, [1, 2, 3], random=(8, 1500))),
+        dict(kind='raw', **raw(40, [0, 1, 2, 5, 10, 36, 38, 39, 41, 64], 64, [1, 2, 3], random=(8, 1500))),
         dict(kind='slru', **slru(20, 24, 64, [1, 2, 3], random=(8, 1500))),
         dict(kind='slru', **slru(4, 16, 32, [1, 2, 3], random=(8, 1500))),
         dict(kind='slru', **slru(33, 5, 56, [1, 2, 3], random=(8, 1500))),
@@ -160,7 +160,7 @@ RANDOM_ONLY = {
         dict(kind='wtlfu', **wt(2, 3, 3, 20, 12, [1, 2, 3], random=(300, 400))),
         dict(kind='wtlfu', **wt(3, 2, 4, 7, 10, [1, 2, 3], random=(200, 300))),
         dict(kind='raw', **raw(8, [0, 1, 4, 12], 12, [1, 2, 3], random=(150, 500))),
-        dict(kind='raw', **raw(16, [0, 3, 8, 24], 24, [1, 2, 3], random=(100, 800))),
+        dict(kind='raw', **raw(16, [0, 3, 8, 14, 15, 17, 24], 24, [1, 2, 3], random=(100, 800))),
         dict(kind='slru', **slru(5, 6, 14, [1, 2, 3], random=(150, 500))),
         dict(kind='slru', **slru(7, 3, 14, [1, 2, 3], random=(150, 500))),
         dict(kind='slru', **slru(8, 8, 24, [1, 2, 3], random=(100, 800))),
@@ -173,8 +173,8 @@ RANDOM_ONLY = {
         dict(kind='wtlfu', **wt(3, 5, 4, 24, 14, [1, 2, 3], random=(150, 500))),
         dict(kind='wtlfu', **wt(4, 3, 8, 30, 18, [1, 2, 3], random=(100, 600))),
         dict(kind='wtlfu', **wt(5, 10, 10, 40, 30, [1, 2, 3], random=(100, 800))),
-        dict(kind='raw', **raw(40, [0, 1, 2, 5, 10, 64], 64, [1, 2, 3], random=(40, 3000))),
-        dict(kind='raw', **raw(100, [0, 1, 3, 7, 25, 50, 128], 150, [1, 2, 3], random=(20, 5000))),
+        dict(kind='raw', **raw(40, [0, 1, 2, 5, 10, 36, 38, 39, 41, 64], 64, [1, 2, 3], random=(40, 3000))),
+        dict(kind='raw', **raw(100, [0, 1, 3, 7, 25, 50, 90, 97, 99, 101, 128], 150, [1, 2, 3], random=(20, 5000))),
         dict(kind='slru', **slru(20, 24, 64, [1, 2, 3], random=(40, 3000))),
         dict(kind='slru', **slru(4, 16, 32, [1, 2, 3], random=(40, 3000))),
         dict(kind='slru', **slru(33, 5, 56, [1, 2, 3], random=(40, 3000))),
